@@ -213,7 +213,8 @@ def allDistinct : List Nat → Bool
 
 /-- what every decoder enforces before a `Transaction` exists (decodeHashableFields: 1 ≤ signers ≤ 16,
 attributes ≤ 16 − signers, script ≤ 65535 bytes; isValid: version 0, unique signers, at most one attribute of
-every type except Conflicts, non-empty script). The sign / overflow checks of the two fees are not
+every type except Conflicts, non-empty script and — since fix be87fd7, so that JSON input is covered too —
+the same two count limits). The sign / overflow checks of the two fees are not
 representable here (fees are naturals). -/
 def wellFormed (t : Tx) : Bool :=
   t.version == 0
